@@ -5,8 +5,7 @@ from ..runner import run_check
 PROPS = ["UnifexModel.Props.C16",                                  # v1 event: parametric + 2 instances
          "UnifexModel.Props.C16_auto", "UnifexModel.Props.C16_auto_a", "UnifexModel.Props.C16_auto_b",
          "UnifexModel.Props.C16_v2", "UnifexModel.Props.C16_v2_a", "UnifexModel.Props.C16_v2_b",
-         "UnifexModel.Props.C16_pass", "UnifexModel.Props.C16_pass_a", "UnifexModel.Props.C16_pass_b",
-         "UnifexModel.Props.C16_pass_c"]
+         "UnifexModel.Props.C16_pass", "UnifexModel.Props.C16_pass_a", "UnifexModel.Props.C16_pass_b"]
 
 EVENT_SRC = ["async_manual_reset_event_v1.cpp", "async_auto_reset_event.cpp", "inplace_stop_token.cpp",
              "async_manual_reset_event_v2.cpp", "atomic_intrusive_list.cpp"]
@@ -43,7 +42,7 @@ def run(tier, seed, replay=None):
             "inplace_stop_source: registration / request_stop / deregistration are atomic, deregistration blocks while the "
             "callback runs on another thread (C03's subject)",
             "the receivers' scheduler completes a scheduled operation with set_done if the receiver's stop token reports a stop "
-            "request when it runs, like inline_scheduler / manual_event_loop",
+            "request when it runs, like inline_scheduler / manual_event_loop (pass_cancel_call_plain: a scheduler that ignores it)",
             "instance theorems: <=2 waiters/consumers, one caller and one acceptor (two concurrent callers are std::terminate "
             "in the code); v1 event and auto-reset counting theorems are parametric",
         ],
@@ -52,8 +51,9 @@ def run(tier, seed, replay=None):
         explanation="Theorems: v1 event parametric by invariant induction (Lemmas/EventV1Inv: every waiter at most once, no stranded "
                     "waiter, no ABA in the CAS loop, reset affects only later waits, no deadlock) + 2 reflection instances; auto-reset "
                     "parametric counting invariant (each set() handed to at most one next(), DONE permanent) + 3 instances with "
-                    "deadlock freedom; v2 event and async_pass per instance (kernel-evaluated closure).  Negative results proved "
-                    "with witnesses and replayed on the real code: v2 cancellation completes set_done off the waiter's scheduler; "
-                    "async_pass call/accept report done although the payload was handed over (completion_forwarder, DESIGN 8 #3).  "
+                    "deadlock freedom; v2 event and async_pass per instance (kernel-evaluated closure); async_pass incl. call_value_iff_accepted "
+                    "in both directions (completion_forwarder's reschedule is unstoppable since /repo b17d5ba; regression monitors kept).  "
+                    "Negative result proved with a witness and replayed on the real code: v2 cancellation completes set_done off the "
+                    "waiter's scheduler (known finding).  "
                     "Tie: trace inclusion of real executions in the models; monitors independent of the models.  "
                     "Mutations tried: tools/checks/c16_mutations.md.")
